@@ -168,14 +168,16 @@ example : let w := run init [.wake, .respond, .respond, .pause, .notice]
   refine ⟨Or.inl (by decide), by decide, by decide⟩
 
 /-- **Watching restarts with a fresh listing on resume.** From a quiet state, whatever happens next,
-    the first request the client sends is a list — never a `watch since` an old version. -/
-theorem fresh_list_on_resume (w : World) (hq : Quiet w) (as : List Act) (v : Nat) :
-    oldestReq (run { w with outs := [] } as).outs ≠ some (.reqWatch v) := by
+    among everything observed from then on (`new`) the first request is a list — never a `watch since`
+    an old version. -/
+theorem fresh_list_on_resume (w : World) (hq : Quiet w) (as : List Act) :
+    ∃ new, (run w as).outs = new ++ w.outs ∧ ∀ v, oldestReq new ≠ some (.reqWatch v) := by
+  refine ⟨(run { w with outs := [] } as).outs, run_outs w as, ?_⟩
+  intro v
   have h0 : FirstIsList { w with outs := [] } := Or.inr ⟨rfl, hq⟩
   rcases firstIsList_run h0 as with h | ⟨h, _⟩ <;> rw [h] <;> simp
 
-/-- `outs` is only a record: clearing it (as `fresh_list_on_resume` does to talk about "from now on")
-    changes no reaction. -/
+/-- `outs` is only a record: no reaction reads it. -/
 theorem outs_is_ghost (w : World) (os : List Out) (a : Act) :
     step { w with outs := os } a
       = { step { w with outs := [] } a with outs := (step { w with outs := [] } a).outs ++ os } :=
@@ -183,6 +185,8 @@ theorem outs_is_ghost (w : World) (os : List Out) (a : Act) :
 
 example : oldestReq (run { (run init [.wake, .respond, .respond, .pause, .notice]) with outs := [] }
     [.wake, .change 1 .added true, .resume, .unblock, .respond]).outs = some .reqList := by decide
+example : (run init [.wake, .respond, .respond, .pause, .notice, .wake, .change 1 .added true, .resume, .unblock, .respond]).outs
+    = [.reqWatch 1, .listed 1, .item 1 1, .reqList, .reqWatch 0, .listed 0, .reqList] := by decide
 
 /-! ## Across watches: the ensemble -/
 
@@ -274,6 +278,16 @@ theorem exactly_one_watch_partial (pre : List Insights) (last : Insights)
     · exact h
   · intro h
     exact Or.inr h
+
+/-- the hypotheses are met by a namespaced operator whose namespaces and kinds come and go -/
+example :
+    let pre : List Insights := [⟨[⟨"kex", true⟩, ⟨"ct", false⟩], [some "a", some "b"]⟩, ⟨[⟨"ct", false⟩], [some "a"]⟩]
+    let last : Insights := ⟨[⟨"kex", true⟩, ⟨"ct", false⟩], [some "b"]⟩
+    ScopeStable (pre ++ [last]) ∧ Namespaced (pre ++ [last]) ∧ last.namespaces ≠ [] ∧
+    (runHist Ens.empty (pre ++ [last])).watchers = [(("ct", none), 2), (("kex", some "b"), 3)] := by
+  refine ⟨?_, ?_, by decide, by decide⟩
+  · unfold ScopeStable; decide
+  · unfold Namespaced; decide
 
 /-- a cluster-wide operator with two namespaced kinds and one cluster-scoped kind, one of them removed and re-added -/
 example : (runHist Ens.empty
